@@ -1,4 +1,5 @@
 import Spine.DiscoveryGuard
+import Spine.DiscoveryResolve
 /-! Line-protocol driver of the C06 model family (`Spine.Disc.World`).
     args (1 = the pinned commit a1767d0, 0 = the repair):
           `whole=0|1`   notification entries handled over the whole message (437adab)
@@ -12,7 +13,15 @@ import Spine.DiscoveryGuard
           msg P reply|partial|full ENT* | FEAT*      ENT = addr:typ:chg:desc   FEAT = ent:id:typ:role:desc:fns
           sub|bind P cEnt cFeat sEnt sFeat            (a request the real code granted)
           csub|cbind P lEnt lFeat rEnt rFeat          (client-side bookkeeping of a local client feature)
-    answer: `T tree | E events | S subs | B binds | CS csubs | CB cbinds`; unknown op: `bad-op`. -/
+          resolve P ENT* | ENT/FEAT*                  (addresses and resolution of peer P's tree, state unchanged)
+    answer: `T tree | E events | S subs | B binds | CS csubs | CB cbinds`; unknown op: `bad-op`.
+    answer of `resolve`: `D dev | A addr@dev{id@dev,…};… | RE ent=entity,… | RF ent/feat=feature,… | K peers` — `D` what
+          `DeviceRemote.Address()` reports, `A` every reported entity / feature address with its device part
+          (`Spine.Disc.Dev`; `?` for members with `whole=1`, whose device parts are not modelled), `RE` what `Entity()`
+          returns for each asked entity address (`findE`), `RF` what `FeatureByAddress()` returns (`resolveF`); `-` = nil;
+          `K` the peers whose SKI the entity events of the last message carried (`.` = no event; the events of
+          `World.stepG c w p` are published for peer p).
+          The device address a message of peer P announces is interned as P. -/
 open Spine.Disc
 
 def parseAddr (s : String) : List Nat := (s.splitOn ".").map fun x => (x.toNat?).getD 0
@@ -78,6 +87,28 @@ def showCE (l : List CE) : String :=
 def showReg (w : World) : String :=
   s!"S {showRE w.subs} | B {showRE w.binds} | CS {showCE w.csubs} | CB {showCE w.cbinds}"
 
+def showEnt (e : E) : String :=
+  s!"{showAddr e.addr}({e.typ};{showOpt e.desc})[" ++ ",".intercalate (e.feats.map showF) ++ "]"
+
+def showDevPart (known : Bool) (d : Option Nat) : String := if known then showOpt d else "?"
+
+def showAddrs (known : Bool) (t : Tree) (d : Dev) : String :=
+  if t.isEmpty then "." else
+  ";".intercalate (t.map fun e => s!"{showAddr e.addr}@{showDevPart known (d.ent e.addr)}" ++ "{" ++
+    ",".intercalate (e.feats.map fun f => s!"{f.id}@{showDevPart known (d.feat e.addr)}") ++ "}")
+
+def parseEF (s : String) : Option (List Nat × Nat) :=
+  match s.splitOn "/" with
+  | [a, i] => if okAddr a && a ≠ "-" && i.toNat?.isSome then some (parseAddr a, i.toNat!) else none
+  | _ => none
+
+def showResolve (known : Bool) (t : Tree) (d : Dev) (qe : List (List Nat)) (qf : List (List Nat × Nat)) : String :=
+  s!"D {showDevPart known d.addr} | A {showAddrs known t d} | RE " ++
+    (if qe.isEmpty then "." else ",".intercalate (qe.map fun a =>
+      s!"{showAddr a}=" ++ match findE t a with | some e => showEnt e | none => "-")) ++ " | RF " ++
+    (if qf.isEmpty then "." else ",".intercalate (qf.map fun (a, i) =>
+      s!"{showAddr a}/{i}=" ++ match resolveF t a i with | some f => showAddr f.ent ++ "/" ++ showF f | none => "-"))
+
 def tree0 : Tree := [⟨[0], 0, none, [⟨[0], 0, 9, 2, none, []⟩]⟩]
 def world0 : World := { trees := fun _ => tree0 }
 
@@ -114,17 +145,52 @@ def answer (c : Cfg) (w : World) (ws : List String) : World × String :=
     else (w, "bad-op")
   | _ => (w, "bad-op")
 
-partial def loop (h : IO.FS.Stream) (c : Cfg) (w : World) : IO Unit := do
+def parseMsgG (rest : List String) : Option MsgG :=
+  let ents := (rest.takeWhile (· ≠ "|")).map parseEW
+  let feats := ((rest.dropWhile (· ≠ "|")).drop 1).map parseFW
+  if ents.any (·.isNone) || feats.any (·.isNone) || !rest.contains "|" then none
+  else some (MsgG.ofWire ⟨ents.filterMap id, feats.filterMap id⟩)
+
+def parseKind (kind : String) : Option Kind :=
+  if kind = "reply" then some .reply else if kind = "partial" then some .part else if kind = "full" then some .full else none
+
+/-- the device parts next to the world: per peer -/
+abbrev Devs := Nat → Dev
+
+def answerD (c : Cfg) (w : World) (ds : Devs) (lastK : String) (ws : List String) : World × Devs × String × String :=
+  match ws with
+  | "resolve" :: p :: rest =>
+    match p.toNat? with
+    | none => (w, ds, lastK, "bad-op")
+    | some p =>
+      let qe := rest.takeWhile (· ≠ "|")
+      let qf := ((rest.dropWhile (· ≠ "|")).drop 1).map parseEF
+      if !rest.contains "|" || qe.any (fun a => !okAddr a || a = "-") || qf.any (·.isNone) then (w, ds, lastK, "bad-op") else
+      (w, ds, lastK, showResolve (!c.wholeMessage) (w.trees p) (ds p) (qe.map parseAddr) (qf.filterMap id) ++ s!" | K {lastK}")
+  | "msg" :: p :: kind :: rest =>
+    let (w', out) := answer c w ws
+    if out = "bad-op" then (w', ds, lastK, out) else
+    match p.toNat?, parseKind kind, parseMsgG rest with
+    | some p, some k, some m =>
+      -- the entity events of this message are published for peer `p`: they carry its SKI
+      let kk := if (w.stepG c p k m).2.isEmpty then "." else toString p
+      if c.wholeMessage then (w', ds, kk, out) else
+      let d' := devStepG c k (some p) m (w.trees p) (ds p)
+      (w', (fun q => if q = p then d' else ds q), kk, out)
+    | _, _, _ => (w', ds, ".", out)       -- `replyx`: rejected as a whole before `UpdateDevice`, no event
+  | _ => let (w', out) := answer c w ws; (w', ds, lastK, out)
+
+partial def loop (h : IO.FS.Stream) (c : Cfg) (w : World) (ds : Devs) (lastK : String) : IO Unit := do
   let line ← h.getLine
   if line.isEmpty then return ()
   let ws := (line.trimAscii.toString.splitOn " ").filter (· ≠ "")
   match ws with
-  | ["reset"] => IO.println "ok"; (← IO.getStdout).flush; loop h c world0
+  | ["reset"] => IO.println "ok"; (← IO.getStdout).flush; loop h c world0 (fun _ => {}) "."
   | _ =>
-    let (w', out) := answer c w ws
+    let (w', ds', k', out) := answerD c w ds lastK ws
     IO.println out
     (← IO.getStdout).flush
-    loop h c w'
+    loop h c w' ds' k'
 
 def parseArgs : List String → Option Cfg
   | [] => some {}
@@ -145,4 +211,4 @@ def parseArgs : List String → Option Cfg
 def main (args : List String) : IO UInt32 := do
   match parseArgs args with
   | none => IO.eprintln s!"drv_disc: bad arguments {args}"; return 2
-  | some c => loop (← IO.getStdin) c world0; return 0
+  | some c => loop (← IO.getStdin) c world0 (fun _ => {}) "."; return 0
